@@ -31,9 +31,16 @@ pub fn set_version(w: &mut World, name: &str, version: &str) {
 /// the stored version. `extra_waiting` synthetic pending replies are added (the map is empty between
 /// transactions, but the migration must carry such records over).
 pub fn downgrade_1_0_0(w: &mut World, extra_waiting: usize) {
+    downgrade_1_0_0_keys(w, extra_waiting, 0)
+}
+/// `shift` > 0: every tracked transfer is filed under key = sequence + shift (the migration must keep KEYS, not re-derive them)
+pub fn downgrade_1_0_0_keys(w: &mut World, extra_waiting: usize, shift: u64) {
     for (id, v) in map_entries(w, "inflight") {
         let legacy = json!({"sequence": v["sequence"], "amount": v["amount"]["amount"], "status": v["status"]});
-        w.store.m.insert(map_key("inflight", id), legacy.to_string().into_bytes());
+        if shift > 0 {
+            w.store.m.remove(&map_key("inflight", id));
+        }
+        w.store.m.insert(map_key("inflight", id + shift), legacy.to_string().into_bytes());
     }
     for (id, v) in map_entries(w, "ibc_waiting_for_reply") {
         let legacy = json!({"amount": v["amount"]["amount"]});
@@ -166,14 +173,15 @@ pub fn records(seed: u64, nhist: u64) -> Vec<Value> {
         let staker = cur["native_chain_config"]["staker_address"].clone();
         // ---- path 1.0.0 -> 1.1.0: detail record; once with the store as it is and once with NO tracked transfer but
         //      pending replies (each of the two maps must be converted whatever the other holds)
-        for no_tracked in [false, true] {
+        for variant in 0..3 {
+            let no_tracked = variant == 1;
             let mut w = base.w.clone();
             if no_tracked {
                 for (id, _) in map_entries(&w, "inflight") {
                     w.store.m.remove(&map_key("inflight", id));
                 }
             }
-            downgrade_1_0_0(&mut w, if no_tracked { 2 } else if k == 1 { 12 } else { (k % 3) as usize });
+            downgrade_1_0_0_keys(&mut w, if no_tracked { 2 } else if k == 1 { 12 } else { (k % 3) as usize }, if variant == 2 { 100 } else { 0 });
             let prepk: Vec<Value> = map_entries(&w, "inflight").iter().map(|(id, v)| json!([id, v["sequence"], v["amount"], v["status"]])).collect();
             let prewait: Vec<Value> = map_entries(&w, "ibc_waiting_for_reply").iter().map(|(id, v)| json!([id, v["amount"]])).collect();
             let before = others(&w, &["inflight", "ibc_waiting_for_reply", "contract_info"]);
